@@ -15,6 +15,8 @@ lazy_static! {
 // This func acquires a read lock on global `RULE_MAP`,
 // please release the lock before calling this func
 pub fn get_rules() -> Vec<Arc<Rule>> {
+    #[cfg(flea1lt_sentinel_rust_verif)]
+    crate::verif::sched::point("lk:system.RULE_MAP:read");
     let rule_map = RULE_MAP.read().unwrap();
     let mut rules: Vec<Arc<Rule>> = Vec::with_capacity(rule_map.len());
     for r in rule_map.values() {
@@ -24,6 +26,8 @@ pub fn get_rules() -> Vec<Arc<Rule>> {
 }
 
 pub fn append_rule(rule: Arc<Rule>) -> bool {
+    #[cfg(flea1lt_sentinel_rust_verif)]
+    crate::verif::sched::point("lk:system.RULE_MAP:read");
     if RULE_MAP
         .read()
         .unwrap()
@@ -36,12 +40,16 @@ pub fn append_rule(rule: Arc<Rule>) -> bool {
 
     match rule.is_valid() {
         Ok(_) => {
+            #[cfg(flea1lt_sentinel_rust_verif)]
+            crate::verif::sched::point("lk:system.RULE_MAP:write");
             RULE_MAP
                 .write()
                 .unwrap()
                 .entry(rule.metric_type)
                 .or_default()
                 .insert(Arc::clone(&rule));
+            #[cfg(flea1lt_sentinel_rust_verif)]
+            crate::verif::sched::point("lk:system.CURRENT_RULES:lock");
             CURRENT_RULES.lock().unwrap().push(rule);
         }
         Err(err) => logging::warn!(
@@ -57,6 +65,8 @@ pub fn append_rule(rule: Arc<Rule>) -> bool {
 // This func acquires the lock on global `CURRENT_RULES`,
 // please release the lock before calling this func
 pub fn load_rules(rules: Vec<Arc<Rule>>) {
+    #[cfg(flea1lt_sentinel_rust_verif)]
+    crate::verif::sched::point("lk:system.CURRENT_RULES:lock");
     let mut current_rules = CURRENT_RULES.lock().unwrap();
     if *current_rules == rules {
         logging::info!(
@@ -70,6 +80,8 @@ pub fn load_rules(rules: Vec<Arc<Rule>>) {
     let m = build_rule_map(rules.clone());
 
     let start = utils::curr_time_nanos();
+    #[cfg(flea1lt_sentinel_rust_verif)]
+    crate::verif::sched::point("lk:system.RULE_MAP:write");
     let mut rule_map = RULE_MAP.write().unwrap();
     *rule_map = m;
 
@@ -88,7 +100,11 @@ pub fn load_rules(rules: Vec<Arc<Rule>>) {
 // This func acquires the locks on global `CURRENT_RULES` and `RULE_MAP`,
 // please release the locks before calling this func
 pub fn clear_rules() {
+    #[cfg(flea1lt_sentinel_rust_verif)]
+    crate::verif::sched::point("lk:system.CURRENT_RULES:lock");
     CURRENT_RULES.lock().unwrap().clear();
+    #[cfg(flea1lt_sentinel_rust_verif)]
+    crate::verif::sched::point("lk:system.RULE_MAP:write");
     RULE_MAP.write().unwrap().clear();
 }
 
@@ -107,6 +123,15 @@ fn build_rule_map(rules: Vec<Arc<Rule>>) -> RuleMap {
         value.insert(rule);
     }
     m
+}
+
+/// which of this module's locks are held right now (by anybody, the caller included)
+#[cfg(flea1lt_sentinel_rust_verif)]
+pub fn verif_locks_held() -> Vec<(&'static str, bool)> {
+    vec![
+        ("system.RULE_MAP", RULE_MAP.try_write().is_err()),
+        ("system.CURRENT_RULES", CURRENT_RULES.try_lock().is_err()),
+    ]
 }
 
 #[cfg(test)]
